@@ -52,8 +52,28 @@ func basicWidth(t types.Type) (int, error) {
 }
 
 type hashGen struct {
-	c *ctx
-	p pkgT
+	c    *ctx
+	p    pkgT
+	defs []string          // emitted sub-record field/encoder definitions, in dependency order
+	seen map[string]string // name -> body, to check that repeated groups agree
+}
+
+// define emits `def <name>Fields (v : <typ>) := ..` and `def enc<Name>Fields := ..` once.
+func (g *hashGen) define(name, typ string, inner []hashItem) error {
+	f, e := tuple(inner, "v")
+	body := f + " | " + e
+	if g.seen == nil {
+		g.seen = map[string]string{}
+	}
+	if old, ok := g.seen[name]; ok {
+		if old != body {
+			return fmt.Errorf("hash: the two uses of %s differ: %s vs %s", name, old, body)
+		}
+		return nil
+	}
+	g.seen[name] = body
+	g.defs = append(g.defs, fmt.Sprintf("def %sFields (v : %s) :=\n  %s\ndef enc%sFields :=\n  %s\n", name, typ, f, strings.Title(name), e))
+	return nil
 }
 
 func (g *hashGen) fieldName(e ast.Expr) (string, error) {
@@ -159,7 +179,11 @@ func (g *hashGen) items(stmts []ast.Stmt) ([]hashItem, error) {
 							if err != nil {
 								return nil, err
 							}
-							out = append(out, g.group(x, inner))
+							it, err := g.group(x, inner)
+							if err != nil {
+								return nil, err
+							}
+							out = append(out, it)
 							i += 2
 							continue
 						}
@@ -169,7 +193,11 @@ func (g *hashGen) items(stmts []ast.Stmt) ([]hashItem, error) {
 							if err != nil {
 								return nil, err
 							}
-							out = append(out, g.group(x, inner))
+							it, err := g.group(x, inner)
+							if err != nil {
+								return nil, err
+							}
+							out = append(out, it)
 							return out, nil
 						}
 					}
@@ -205,10 +233,12 @@ func (g *hashGen) items(stmts []ast.Stmt) ([]hashItem, error) {
 					if len(mid) == 0 {
 						return nil, fmt.Errorf("hash: no field between count and loop (layout not modelled)")
 					}
-					innerF, innerE := tuple(inner, "y")
+					if err := g.define("stu", "StuData", inner); err != nil {
+						return nil, err
+					}
 					out = append(out, hashItem{
-						field: fmt.Sprintf("(%s, x.stus.map fun y => %s)", stripX(midF), innerF),
-						enc:   fmt.Sprintf("(encCounted %s %s)", midE, innerE),
+						field: fmt.Sprintf("(%s, x.stus.map stuFields)", stripX(midF)),
+						enc:   fmt.Sprintf("(encCounted %s encStuFields)", midE),
 					})
 					i = j + 1
 					continue
@@ -258,16 +288,30 @@ func (g *hashGen) items(stmts []ast.Stmt) ([]hashItem, error) {
 func stripX(s string) string { return s }
 
 // group makes `opt` of a nested record: X == nil presence byte + payload over X's fields.
-func (g *hashGen) group(x string, inner []hashItem) hashItem {
-	name := map[string]string{"event": "event", "v.ID": "id", "v.Trip": "trip", "v.Position": "position"}[x]
-	if name == "" {
-		name = "UNKNOWN_" + x
+func (g *hashGen) group(x string, inner []hashItem) (hashItem, error) {
+	type gi struct{ field, def, typ string }
+	info, ok := map[string]gi{
+		"event":      {"event", "event", "EventData"},
+		"v.ID":       {"id", "vehicleId", "VehicleIdData"},
+		"v.Position": {"position", "position", "PositionData"},
+		"v.Trip":     {"trip", "", ""},
+	}[x]
+	if !ok {
+		return hashItem{}, fmt.Errorf("hash: unknown optional group %s", x)
 	}
-	f, e := tuple(inner, "z")
+	if info.def == "" {
+		if len(inner) != 1 || inner[0].field != "SELF" {
+			return hashItem{}, fmt.Errorf("hash: the trip of a vehicle is not hashed by h.trip")
+		}
+		return hashItem{field: "x.trip", enc: "(encOpt encTrip)"}, nil
+	}
+	if err := g.define(info.def, info.typ, inner); err != nil {
+		return hashItem{}, err
+	}
 	return hashItem{
-		field: fmt.Sprintf("(x.%s.map fun z => %s)", name, f),
-		enc:   fmt.Sprintf("(encOpt %s)", e),
-	}
+		field: fmt.Sprintf("(x.%s.map %sFields)", info.field, info.def),
+		enc:   fmt.Sprintf("(encOpt enc%sFields)", strings.Title(info.def)),
+	}, nil
 }
 
 // tuple renders items as a right-nested pair of field projections of `v` and the matching encoder.
@@ -279,7 +323,7 @@ func tuple(items []hashItem, v string) (string, string) {
 		if it.field == "SELF" {
 			return v
 		}
-		if strings.HasPrefix(it.field, "(") {
+		if strings.HasPrefix(it.field, "(") || strings.HasPrefix(it.field, "x.") {
 			return strings.ReplaceAll(it.field, "x.", v+".")
 		}
 		return v + "." + it.field
@@ -293,7 +337,7 @@ func tuple(items []hashItem, v string) (string, string) {
 
 func genHashSchema(c *ctx) (string, error) {
 	p := c.pkg("")
-	g := &hashGen{c, p}
+	g := &hashGen{c: c, p: p}
 	tripFD := findMethod(p, "hasher", "trip")
 	vehFD := findMethod(p, "hasher", "vehicle")
 	if tripFD == nil || vehFD == nil {
@@ -303,10 +347,13 @@ func genHashSchema(c *ctx) (string, error) {
 	if err != nil {
 		return "", err
 	}
+	tripDefs := g.defs
+	g.defs = nil
 	vi, err := g.items(vehFD.Body.List)
 	if err != nil {
 		return "", err
 	}
+	vehDefs := g.defs
 	// the helper encoders must have the shapes the combinators assume
 	for _, chk := range []struct{ recv, name, want string }{
 		{"hasher", "string", "{ h.number(uint64(len(s))) h.flush() h.h.Write([]byte(s)) }"},
@@ -342,10 +389,16 @@ func genHashSchema(c *ctx) (string, error) {
 	vf, ve := tuple(vi, "x")
 	var sb strings.Builder
 	sb.WriteString("import GtfsVerif.Model.HashCombinators\nnamespace Gtfs.Gen.HashSchema\nopen Gtfs.Hash\n\n")
+	for _, d := range tripDefs {
+		sb.WriteString(d + "\n")
+	}
 	sb.WriteString("/-- the fields `hasher.trip` writes, in order, as a nested pair -/\n")
 	fmt.Fprintf(&sb, "def tripFields (x : TripData) :=\n  %s\n\n", tf)
 	fmt.Fprintf(&sb, "/-- the encoder `hasher.trip` applies to them -/\ndef encTripFields :=\n  %s\n\n", te)
 	sb.WriteString("def encTrip (x : TripData) : List UInt8 := encTripFields (tripFields x)\n\n")
+	for _, d := range vehDefs {
+		sb.WriteString(d + "\n")
+	}
 	sb.WriteString("/-- the fields `hasher.vehicle` writes, in order -/\n")
 	fmt.Fprintf(&sb, "def vehicleFields (x : VehicleData) :=\n  %s\n\n", vf)
 	fmt.Fprintf(&sb, "def encVehicleFields :=\n  %s\n\n", ve)
